@@ -47,6 +47,9 @@ stored in `s` under header slot `slot` on pages ≥ 2 and the other slot loses t
 * `copy_on_write_stores_the_whole_tree`: a writer that writes only the nodes on fresh pages leaves the whole tree
   (rewritten and shared nodes) stored and changes nothing outside the fresh runs — the two premises above, for one
   bucket's tree sharing any subset of its nodes with the previous state;
+* `whole_copy_on_write_commit_is_atomic`: the same for a whole database (every bucket at every depth) written
+  copy-on-write, with the free-list page and the header: data writes alone show the previous state, the completed
+  commit shows the new one and is committed again;
 * `allocator_model_delivers_the_premise`: the page-level guarantee of the allocator model (Layer A: a protocol-abiding
   writer writes no page of the snapshot it started from) is exactly the byte-level premise `KeepsState`;
 * `fresh_file_is_committed`: the premises are satisfiable (a four-page file as `init_file` writes it).
@@ -59,6 +62,7 @@ import Jamm.Proofs.IoLemmas
 import Jamm.Proofs.CommitFileAtomic
 import Jamm.Proofs.CommitFileAlloc
 import Jamm.Proofs.CowTree
+import Jamm.Proofs.CowCommit
 import Jamm.Gen.Steps
 import Jamm.Gen.Layout
 import Jamm.Gen.HashOrder
@@ -227,6 +231,38 @@ theorem copy_on_write_stores_the_whole_tree (pagesize : Nat) (hhdr : Gen.layout.
   ⟨writeFreshT_stored Gen.layout pagesize layout_fit_for_commit.1 hhdr fresh ov s.size t s rfl hfit hdisj hsh,
    writeFreshT_size Gen.layout pagesize fresh ov t s,
    fun i h => writeFreshT_get Gen.layout pagesize layout_fit_for_commit.1 fresh ov s.size t s i hfit h⟩
+
+/-- A WHOLE COPY-ON-WRITE COMMIT, every bucket at every nesting depth, in file bytes (`Proofs/CowView.lean`,
+`CowCommit.lean`): only the nodes on fresh pages are written, then the free-list page, then the sealed header into the
+other slot; the new state shares every other page with the previous one (`SharedV`).  If the written runs lie on pages
+≥ 2 that the previous state does not own (what the allocator guarantees: `allocator_model_delivers_the_premise`), then
+the file after the data writes still opens as exactly the previous state, and after the header write `open` shows
+exactly the new state, the file is committed again and the previous state is still stored under the old slot -/
+theorem whole_copy_on_write_commit_is_atomic (pagesize : Nat)
+    (hrec : Gen.layout.pgPtr + Gen.layout.metaSize ≤ pagesize) (fresh : Nat → Bool) (ov ov' : Nat → Nat) (s : Src)
+    (slot : Nat) (hslot : slot = 0 ∨ slot = 1) (old new : Opened)
+    (h0 : CommittedFile pagesize ov s slot old)
+    (hfit : new.view.fits Gen.layout pagesize ov' s.size)
+    (hdisj : (new.runs ov').Pairwise runsDisjoint)
+    (hsh : SharedV Gen.layout pagesize fresh ov' s new.view)
+    (hflfile : new.hdr.freelistPage * pagesize + (new.flOverflow + 1) * pagesize ≤ s.size)
+    (hflfit : Gen.layout.pgPtr + 8 * new.free.length ≤ (new.flOverflow + 1) * pagesize)
+    (hflid : new.hdr.freelistPage < 2 ^ 64) (hflrun : (new.flOverflow + 1) * pagesize < 2 ^ 64)
+    (hfree : ∀ x ∈ new.free, x < 2 ^ 64)
+    (hfresh2 : ∀ r ∈ new.freshRuns fresh ov', 2 ≤ r.1)
+    (hsep : ∀ a ∈ old.runs ov, ∀ b ∈ new.freshRuns fresh ov', runsDisjoint a b)
+    (c : HeaderOK Gen.layout Gen.hashOrder pagesize ov' s old new) (fuel : Nat) (hfo : old.view.weight ≤ fuel)
+    (hfn : new.view.weight ≤ fuel) :
+    openFile Gen.layout Gen.hashOrder pagesize fuel (cowCommitData Gen.layout pagesize fresh ov' new s) = some old ∧
+    openFile Gen.layout Gen.hashOrder pagesize fuel
+      (writeMetaPage Gen.layout pagesize (1 - slot) new.hdr (cowCommitData Gen.layout pagesize fresh ov' new s)) = some new ∧
+    CommittedFile pagesize ov'
+      (writeMetaPage Gen.layout pagesize (1 - slot) new.hdr (cowCommitData Gen.layout pagesize fresh ov' new s)) (1 - slot) new ∧
+    Holds Gen.layout Gen.hashOrder pagesize ov
+      (writeMetaPage Gen.layout pagesize (1 - slot) new.hdr (cowCommitData Gen.layout pagesize fresh ov' new s)) slot old :=
+  cow_commit_atomic Gen.layout Gen.hashOrder pagesize layout_fit_for_commit.1 layout_fit_for_commit.2 hrec
+    (Nat.le_trans (by decide) hrec) fresh ov ov' s slot hslot old new h0 hfit hdisj hsh hflfile hflfit hflid hflrun hfree
+    hfresh2 hsep c fuel hfo hfn
 
 /-- LAYER A DELIVERS THE PREMISE: in any state of the release-protocol model that satisfies its invariant (proved
 along every history: `Jamm.Props.C03.invariant_always`), for any protocol-abiding writer, a byte source that differs
